@@ -116,6 +116,15 @@ namespace sim
 		m_handler = std::move(handler);
 		if (m_expired)
 		{
+			// the timer is not queued: it has fired, or its previous wait was
+			// cancelled. cancelling does not change the expiry; if it is still
+			// ahead, wait for it again
+			if (m_expiration_time > chrono::high_resolution_clock::now())
+			{
+				m_expired = false;
+				m_io_service->add_timer(this);
+				return;
+			}
 			fire(boost::system::error_code());
 			return;
 		}
